@@ -23,6 +23,8 @@ macro_rules! dispatch {
             "C13" => $f(&checks::c13::C13 $(, $arg)*),
             "C05" => $f(&checks::c05::C05 $(, $arg)*),
             "C04" => $f(&checks::c04::C04 $(, $arg)*),
+            "C09" => $f(&checks::c09::C09 $(, $arg)*),
+            "C11" => $f(&checks::c11::C11 $(, $arg)*),
             _ => {
                 eprintln!("unknown or not-applicable property {}", $id);
                 std::process::exit(2)
